@@ -106,6 +106,13 @@ class Ctx:
         """unconditional failure on this path (e.g. wrong shape, unexpected exception)"""
         return self.require(label, False, detail)
 
+    def valid(self, cond):
+        """meta-level query used while building an oracle: does cond hold on the whole current path region?"""
+        if self.mode == 'real':
+            return bool(cond)
+        good, _ = self.E.prove(cond)
+        return good
+
     def observe(self, key, value):
         self.observed[key] = value
 
@@ -246,6 +253,16 @@ def run_instance(args):
                     raise
                 unsupported.append(str(ex)[:200])
                 raise core.Inconclusive(str(ex))
+            except Exception as ex:
+                if E.aborted or E.inconclusive_flag:
+                    raise
+                # the code under test raised on a feasible path: a violation candidate, confirmed by replay
+                tb = traceback.extract_tb(ex.__traceback__)
+                where = next((f"{os.path.basename(f.filename)}:{f.lineno}" for f in reversed(tb)
+                              if '/mofun/' in f.filename), '')
+                if not where and not isinstance(ex, (AssertionError,)):
+                    raise
+                ctx.requires = [('exception', False, f"{type(ex).__name__}: {ex} at {where}")]
             choices = list(proxies.CHOICES.recorded)
             res['reached'] += 1
             sig = tuple(d['v'] for d in E.decisions[:E.pos])
